@@ -342,8 +342,10 @@ const preludeFixed = `(declare-datatypes ((Path 0)) (((pnil) (pfld (pbase Path) 
 (declare-datatypes ((Ref 0)) (((nil) (loc (root Int) (path Path)))))
 (declare-datatypes ((Slice 0)) (((mk-slice (sdata Ref) (soff Int) (slen Int)))))
 (define-fun obj ((n Int)) Ref (loc n pnil))
-(define-fun fld ((b Ref) (f Int)) Ref (loc (root b) (pfld (path b) f)))
-(define-fun elem ((b Ref) (i Int)) Ref (loc (root b) (pelem (path b) i)))
+(declare-fun fld (Ref Int) Ref)
+(assert (forall ((b Ref) (f Int)) (! (= (fld b f) (loc (root b) (pfld (path b) f))) :pattern ((fld b f)))))
+(declare-fun elem (Ref Int) Ref)
+(assert (forall ((b Ref) (i Int)) (! (= (elem b i) (loc (root b) (pelem (path b) i))) :pattern ((elem b i)))))
 (define-fun born ((r Ref)) Int (ite ((_ is nil) r) (- 1) (root r)))
 (define-fun is_obj ((r Ref)) Bool (and ((_ is loc) r) ((_ is pnil) (path r))))
 (define-fun is_fld ((r Ref)) Bool (and ((_ is loc) r) ((_ is pfld) (path r))))
@@ -359,6 +361,8 @@ const preludeFixed = `(declare-datatypes ((Path 0)) (((pnil) (pfld (pbase Path) 
 `
 
 const selemAxiom = "(declare-fun selem (Slice Int) Ref)\n(assert (forall ((s Slice) (i Int)) (! (= (selem s i) (elem (sdata s) (+ (soff s) i))) :pattern ((selem s i)))))\n"
+const fldAxiom = "(declare-fun fld (Ref Int) Ref)\n(assert (forall ((b Ref) (f Int)) (! (= (fld b f) (loc (root b) (pfld (path b) f))) :pattern ((fld b f)))))\n(declare-fun elem (Ref Int) Ref)\n(assert (forall ((b Ref) (i Int)) (! (= (elem b i) (loc (root b) (pelem (path b) i))) :pattern ((elem b i)))))\n"
+const fldDef = "(define-fun fld ((b Ref) (f Int)) Ref (loc (root b) (pfld (path b) f)))\n(define-fun elem ((b Ref) (i Int)) Ref (loc (root b) (pelem (path b) i)))\n"
 const selemDef = "(define-fun selem ((s Slice) (i Int)) Ref (elem (sdata s) (+ (soff s) i)))\n"
 
 // script assembles the SMT-LIB text. For satisfiability (vacuity) queries selem is a plain definition, which
@@ -371,7 +375,9 @@ func (c *smtctx) script(nAssume int, goal string, getValues []string) string {
 func (c *smtctx) scriptMode(nAssume int, goal string, getValues []string, satQuery bool) string {
 	var sb strings.Builder
 	if satQuery {
-		sb.WriteString(strings.Replace(preludeFixed, selemAxiom, selemDef, 1))
+		p := strings.Replace(preludeFixed, selemAxiom, selemDef, 1)
+		p = strings.Replace(p, fldAxiom, fldDef, 1)
+		sb.WriteString(p)
 	} else {
 		sb.WriteString(preludeFixed)
 	}
